@@ -171,6 +171,21 @@ fn unwire(w: &[u8]) -> Option<Labels> {
     }
 }
 
+/// Well-formedness of an uncompressed absolute wire name.
+fn unwire_ok(w: &[u8]) -> Option<()> {
+    let mut i = 0;
+    loop {
+        let n = *w.get(i)? as usize;
+        if n == 0 {
+            return if i + 1 == w.len() { Some(()) } else { None };
+        }
+        if n > 63 {
+            return None;
+        }
+        i += 1 + n;
+    }
+}
+
 // ------------------------------------------------ own NSEC3 primitives
 
 /// RFC 5155 §5: IH(salt, x, 0) = H(x || salt); IH(salt, x, k) =
@@ -368,6 +383,19 @@ impl Universe {
 
     fn id_of(&self, l: &Labels) -> Option<usize> {
         self.by_wire.get(&wire_lc(l)).copied()
+    }
+
+    /// Look up an uncompressed wire-format name.  Lower-casing the whole
+    /// slice is safe: length octets are <= 63 and so never ASCII letters.
+    fn id_of_wire(&self, w: &[u8]) -> Option<usize> {
+        if w.len() > 255 || unwire_ok(w).is_none() {
+            return None;
+        }
+        let mut buf = [0u8; 255];
+        let b = &mut buf[..w.len()];
+        b.copy_from_slice(w);
+        b.make_ascii_lowercase();
+        self.by_wire.get(&*b).copied()
     }
 
     fn pidx(&self, salt: &[u8], it: u16) -> usize {
@@ -602,6 +630,10 @@ fn nsec3_configs(quick: bool) -> Vec<N3Cfg> {
     let mut v = Vec::new();
     let opt = [(false, true), (true, true), (true, false)];
     for (salt, it) in param_menu() {
+        if quick && !matches!((salt.len(), it), (0, 0) | (1, 1) | (1, 5)) {
+            // quick: (no salt, 0), (AB, 1), (AB, 5)
+            continue;
+        }
         for (opt_out, exclude) in opt {
             for dnskey in [true, false] {
                 if quick && !dnskey && !(salt.is_empty() && it == 0) {
@@ -615,6 +647,9 @@ fn nsec3_configs(quick: bool) -> Vec<N3Cfg> {
     // NSEC3PARAM TTL mode: the two non-default modes with the RFC 9276
     // parameters (the mode cannot influence the chain).
     for (opt_out, exclude) in opt {
+        if quick && opt_out {
+            continue;
+        }
         for ttl_mode in [1u8, 2] {
             v.push(N3Cfg { salt: vec![], iters: 0, opt_out, exclude, dnskey: true, ttl_mode });
         }
@@ -626,22 +661,38 @@ fn nsec3_configs(quick: bool) -> Vec<N3Cfg> {
 
 #[derive(Default)]
 struct Local {
-    c: BTreeMap<&'static str, u64>,
+    /// counters keyed by the address of the key literal (cheap); merged by
+    /// string value at the end of a chunk
+    c: Vec<(&'static str, u64)>,
     nsec_len: [u64; 32],
     nsec3_len: [u64; 32],
     distinct: Vec<u64>,
     shapes: Vec<u64>,
     evals: u64,
     probes: u64,
-    tl: u64, tp: u64, tq: u64,
 }
 
 impl Local {
+    #[inline]
     fn inc(&mut self, k: &'static str) {
-        *self.c.entry(k).or_insert(0) += 1;
+        self.add(k, 1)
     }
+    #[inline]
     fn add(&mut self, k: &'static str, n: u64) {
-        *self.c.entry(k).or_insert(0) += n;
+        for e in self.c.iter_mut() {
+            if std::ptr::eq(e.0.as_ptr(), k.as_ptr()) && e.0.len() == k.len() {
+                e.1 += n;
+                return;
+            }
+        }
+        self.c.push((k, n));
+    }
+    fn map(&self) -> BTreeMap<&'static str, u64> {
+        let mut m = BTreeMap::new();
+        for (k, v) in &self.c {
+            *m.entry(*k).or_insert(0) += *v;
+        }
+        m
     }
 }
 
@@ -716,8 +767,8 @@ fn check_nsec(run: &Run, z: &Zone, sorted: &Sorted, dnskey: bool, loc: &mut Loca
     let mut got: Vec<GotNsec> = Vec::new();
     let mut parse_ok = true;
     for r in &recs {
-        let o = unwire(r.owner().as_slice()).and_then(|l| u.id_of(&l));
-        let n = unwire(r.data().next_name().as_slice()).and_then(|l| u.id_of(&l));
+        let o = u.id_of_wire(r.owner().as_slice());
+        let n = u.id_of_wire(r.data().next_name().as_slice());
         let raw = r.data().types().as_slice();
         let types = bitmap_decode(raw);
         match (o, n, types) {
@@ -825,7 +876,11 @@ fn check_nsec(run: &Run, z: &Zone, sorted: &Sorted, dnskey: bool, loc: &mut Loca
     }
 
     // ---- denial probes on the library's records
-    let matching = |q: usize| got.iter().find(|g| g.owner == q);
+    let mut by_id: Vec<Option<usize>> = vec![None; u.names.len()];
+    for (i, g) in got.iter().enumerate() {
+        by_id[g.owner].get_or_insert(i);
+    }
+    let matching = |q: usize| by_id[q].map(|i| &got[i]);
     let covers = |q: usize| -> Option<(usize, bool)> {
         for (i, g) in got.iter().enumerate() {
             if g.owner < g.next {
@@ -948,10 +1003,7 @@ fn check_nsec3(run: &Run, z: &Zone, sorted: &Sorted, n3: &N3Run, loc: &mut Local
     let apex = &run.apex;
     let lcfg = &n3.lib;
     loc.evals += 1;
-    let t0 = std::time::Instant::now();
     let res = guard(|| generate_nsec3s(apex, sorted.owner_rrs(), lcfg));
-    loc.tl += t0.elapsed().as_nanos() as u64;
-    let t1 = std::time::Instant::now();
     let out = match res {
         Err(p) => {
             loc.inc("nsec3_panic");
@@ -1234,10 +1286,14 @@ fn check_nsec3(run: &Run, z: &Zone, sorted: &Sorted, n3: &N3Run, loc: &mut Local
         }
     }
 
-    loc.tp += t1.elapsed().as_nanos() as u64;
-    let t2 = std::time::Instant::now();
     // ---- denial probes (RFC 5155 §7.2 / §8.4-8.7 shapes) on the library's records
-    let matching = |q: usize| got.iter().find(|g| g.hash == hashes[q]);
+    // a record matches q iff its owner hash equals OWN hash of q; got[i].id
+    // was derived from exactly that equality
+    let mut by_id: Vec<Option<usize>> = vec![None; n];
+    for (i, g) in got.iter().enumerate() {
+        by_id[g.id].get_or_insert(i);
+    }
+    let matching = |q: usize| by_id[q].map(|i| &got[i]);
     let covers = |q: usize| -> Option<(&GotNsec3, bool)> {
         let h = hashes[q];
         for g in got.iter() {
@@ -1373,7 +1429,6 @@ fn check_nsec3(run: &Run, z: &Zone, sorted: &Sorted, n3: &N3Run, loc: &mut Local
             }
         }
     }
-    loc.tq += t2.elapsed().as_nanos() as u64;
 }
 
 // -------------------------------------------------------- enumeration
@@ -1424,7 +1479,8 @@ fn slots(quick: bool) -> Vec<Slot> {
 
 /// Names that are probed in addition to the universe names, their ancestors
 /// and their wildcard children.
-const EXTRA_PROBES: [&str; 18] = [
+const EXTRA_PROBES: [&str; 19] = [
+    "_.z.",
     "0.z.", "b.z.", "zzz.z.", "a.a.z.", "x.b.a.z.", "x.y.a.z.", "x.c.z.", "x.g.c.z.", "x.d.z.", "j.f.z.", "x.e.f.z.", "x.k.e.f.z.", "x.h.f.z.", "x.y.f.z.",
     "x.y.z.", "e.z.", "cc.z.", "x.o.c.z.",
 ];
@@ -1440,11 +1496,14 @@ fn apex_recs() -> Vec<(Labels, u16, u8)> {
     vec![(parse_name(APEX), T_SOA, 1), (parse_name(APEX), T_NS, 1)]
 }
 
-/// Records outside the zone, one sorting before the apex and one after the
-/// whole zone (the generators' doc: records before the apex are skipped,
-/// processing stops at the first record outside the zone).
+/// The "extras" switch.  Records outside the zone, one sorting before the
+/// apex and two after the whole zone (the generators' doc: records before the
+/// apex are skipped, processing stops at the first record outside the zone);
+/// plus the in-zone name `_.z.`: 0x5F lies between 'A' and 'a', so it sorts
+/// between the two spellings of a.z. unless names are compared
+/// case-insensitively as RFC 4034 §6.1 demands.
 fn ooz_recs() -> Vec<(Labels, u16, u8)> {
-    vec![(parse_name("m."), T_A, 1), (parse_name("zz."), T_A, 1), (parse_name("a.zz."), T_TXT, 1)]
+    vec![(parse_name("m."), T_A, 1), (parse_name("zz."), T_A, 1), (parse_name("a.zz."), T_TXT, 1), (parse_name("_.z."), T_A, 1)]
 }
 
 fn zone_of_index(sl: &[Slot], mut idx: u64) -> (Vec<(Labels, u16, u8)>, Vec<usize>) {
@@ -1591,7 +1650,7 @@ fn run_replay(ctx: &Ctx, path: &str) -> ! {
     }
     println!("replay: {} violation class(es) on this case", ctx.violation_count());
     ctx.finish(
-        json!({"evaluations": loc.evals.max(1), "distinct_nontrivial": 0, "rule": "replay of one case", "samples": [case.clone()], "exhaustive": false, "counters": loc.c}),
+        json!({"evaluations": loc.evals.max(1), "distinct_nontrivial": 0, "rule": "replay of one case", "samples": [case.clone()], "exhaustive": false, "counters": loc.map()}),
         &["replay of a single recorded case"],
     );
 }
@@ -1692,7 +1751,6 @@ fn main() {
         let mut t = total.lock().unwrap();
         t.evals += loc.evals;
         t.probes += loc.probes;
-        t.tl += loc.tl; t.tp += loc.tp; t.tq += loc.tq;
         for (k, v) in &loc.c {
             t.add(k, *v);
         }
@@ -1729,7 +1787,6 @@ fn main() {
     }
 
     let t = total.lock().unwrap();
-    eprintln!("nsec3 phases: lib {:.1}s compare {:.1}s probes {:.1}s", t.tl as f64/1e9, t.tp as f64/1e9, t.tq as f64/1e9);
     let slots_json: Vec<Value> = sl.iter().map(|s| json!({"name": s.name, "kinds": s.kinds.iter().map(|k| tnames(k)).collect::<Vec<_>>()})).collect();
     ctx.finish(
         json!({
@@ -1743,14 +1800,14 @@ fn main() {
                 "zones": nzones,
                 "slots": slots_json,
                 "apex_records": "SOA + NS (always)",
-                "out_of_zone_records": "absent / present (m. before the apex, zz. and a.zz. after the zone)",
+                "extras": "absent / present: out-of-zone records m. (before the apex), zz. and a.zz. (after the zone), and the in-zone name _.z. A",
                 "nsec_configs": ["assume_dnskeys_will_be_added = true", "false"],
                 "nsec3_configs": n3runs.iter().map(|c| c.cfg.json()).collect::<Vec<_>>(),
                 "probe_names": u.names.len(),
                 "probe_types": PROBE_TYPES.iter().map(|t| tname(*t)).collect::<Vec<_>>(),
             },
             "distinct_expected_chain_shapes": shapes.lock().unwrap().len(),
-            "counters": t.c,
+            "counters": t.map(),
             "histograms": {
                 "nsec_chain_length": t.nsec_len.iter().enumerate().filter(|(_, c)| **c > 0).map(|(l, c)| (l.to_string(), json!(c))).collect::<serde_json::Map<String, Value>>(),
                 "nsec3_mandatory_chain_length": t.nsec3_len.iter().enumerate().filter(|(_, c)| **c > 0).map(|(l, c)| (l.to_string(), json!(c))).collect::<serde_json::Map<String, Value>>(),
